@@ -16,6 +16,7 @@ Oracle : recursive walk of the result: every real is an instance of real_cls bui
 from collections import Counter
 from decimal import Decimal
 
+import io
 import pvl
 from hypothesis import given, seed as hseed, settings, HealthCheck, Phase
 from hypothesis import strategies as st
@@ -113,15 +114,27 @@ def load(d, cfg, text, substitutes=True):
             pkw = dict(module_class=MyModule, group_class=MyGroup,
                        object_class=MyObject)
     wiring = cfg.get("wiring", "shared")
+
+    def entry(**kw):
+        # the same keyword arguments through each way of handing the text over
+        how = cfg.get("entry", "str")
+        if how == "bytes":
+            return pvl.loads(text.encode("utf-8"), **kw)
+        if how == "BytesIO":
+            return pvl.load(io.BytesIO(text.encode("utf-8")), **kw)
+        if how == "StringIO":
+            return pvl.load(io.StringIO(text), **kw)
+        return pvl.loads(text, **kw)
+
     if wiring == "shared":
         dec = DECODER[d](g, **deckw)
         if d == "default" and cfg.get("via_loads"):
-            return pvl.loads(text, decoder=dec, lexer_fn=counting_lexer(), **pkw)
+            return entry(decoder=dec, lexer_fn=counting_lexer(), **pkw)
         return PARSER[d](g, dec, lexer_fn=counting_lexer(), **pkw).parse(text)
     dec = DECODER[d](**deckw)                 # decoder with its own default grammar
     if wiring == "own":
         return PARSER[d](g, dec, lexer_fn=counting_lexer(), **pkw).parse(text)
-    return pvl.loads(text, grammar=g, decoder=dec, lexer_fn=counting_lexer(), **pkw)
+    return entry(grammar=g, decoder=dec, lexer_fn=counting_lexer(), **pkw)
 
 
 def walk(v, cfg, d, kind, out, path="$"):
@@ -259,6 +272,8 @@ def cases(draw, d):
                                            "RecordingReal"])),
                quantity=draw(st.booleans()), containers=draw(st.booleans()),
                via_loads=draw(st.booleans()),
+               entry=draw(st.sampled_from(["str", "str", "bytes", "BytesIO",
+                                           "StringIO"])),
                wiring=draw(st.sampled_from(["shared", "shared", "own", "loads"])))
     return dict(dialect=d, cfg=cfg, text=text, expected=doc["expected"],
                 numerals=numerals(doc), feats=c03.features(doc),
